@@ -1,4 +1,5 @@
-package main
+// Package mgr is the correspondence engine for LoadBalancedManager / loadBalancer (C05, C15).
+package mgr
 
 import (
 	"bufio"
@@ -8,6 +9,8 @@ import (
 	"sort"
 	"strconv"
 	"strings"
+
+	. "verifharness/core"
 
 	pgossip "github.com/andydunstall/piko/pkg/gossip"
 	"github.com/andydunstall/piko/pkg/log"
@@ -47,7 +50,8 @@ type mgrEngine struct {
 	win map[string][]int
 }
 
-func init() { register("mgr", func() Engine { return &mgrEngine{} }) }
+// New returns the engine.
+func New() Engine { return &mgrEngine{} }
 
 func (e *mgrEngine) Reset() {
 	e.cs, e.gs, e.mgr = nil, nil, nil
@@ -69,7 +73,7 @@ func (e *mgrEngine) up(uid int, ep string) *fakeUp {
 }
 
 func showEntry(en pgossip.Entry) string {
-	s := hx(en.Key) + "=" + hx(en.Value) + "@" + strconv.FormatUint(en.Version, 10)
+	s := Hx(en.Key) + "=" + Hx(en.Value) + "@" + strconv.FormatUint(en.Version, 10)
 	if en.Deleted {
 		s += "D"
 	}
@@ -89,8 +93,8 @@ func showOwnGossip(gs *pgossip.VState) string {
 }
 
 func (e *mgrEngine) show() string {
-	return "eps=" + showCounts(e.mgr.Endpoints()) +
-		" local=" + showCounts(e.cs.LocalNode().Endpoints) +
+	return "eps=" + ShowCounts(e.mgr.Endpoints()) +
+		" local=" + ShowCounts(e.cs.LocalNode().Endpoints) +
 		" gossip=" + showOwnGossip(e.gs)
 }
 
@@ -107,7 +111,7 @@ func (e *mgrEngine) oracleCounts(o *Out) {
 		}
 		n, err := strconv.Atoi(en.Value)
 		if err != nil {
-			o.Fail("C05", "advertised-not-a-count", hx(en.Key)+"="+hx(en.Value))
+			o.Fail("C05", "advertised-not-a-count", Hx(en.Key)+"="+Hx(en.Value))
 			continue
 		}
 		adv[strings.TrimPrefix(en.Key, "endpoint:")] = n
@@ -118,18 +122,18 @@ func (e *mgrEngine) oracleCounts(o *Out) {
 			want[ep] = len(ids)
 		}
 	}
-	if showCounts(reg) != showCounts(want) {
-		o.Fail("C05", "registered-vs-reference", "registered="+showCounts(reg)+" reference="+showCounts(want))
+	if ShowCounts(reg) != ShowCounts(want) {
+		o.Fail("C05", "registered-vs-reference", "registered="+ShowCounts(reg)+" reference="+ShowCounts(want))
 	}
-	if showCounts(reg) != showCounts(loc) {
-		o.Fail("C05", "registered-vs-cluster", "registered="+showCounts(reg)+" cluster="+showCounts(loc))
+	if ShowCounts(reg) != ShowCounts(loc) {
+		o.Fail("C05", "registered-vs-cluster", "registered="+ShowCounts(reg)+" cluster="+ShowCounts(loc))
 	}
-	if showCounts(reg) != showCounts(adv) {
-		o.Fail("C05", "registered-vs-advertised", "registered="+showCounts(reg)+" advertised="+showCounts(adv))
+	if ShowCounts(reg) != ShowCounts(adv) {
+		o.Fail("C05", "registered-vs-advertised", "registered="+ShowCounts(reg)+" advertised="+ShowCounts(adv))
 	}
 	for ep, n := range adv {
 		if n <= 0 {
-			o.Fail("C05", "advertised-nonpositive", hx(ep))
+			o.Fail("C05", "advertised-nonpositive", Hx(ep))
 		}
 	}
 	o.Count("oracle:C05")
@@ -147,7 +151,7 @@ func removeFirst(xs []int, x int) ([]int, bool) {
 func (e *mgrEngine) Step(ws []string, o *Out) string {
 	switch ws[0] {
 	case "init":
-		id, p, a := unhx(ws[1]), unhx(ws[2]), unhx(ws[3])
+		id, p, a := Unhx(ws[1]), Unhx(ws[2]), Unhx(ws[3])
 		e.cs = cluster.NewState(&cluster.Node{ID: id, ProxyAddr: p, AdminAddr: a}, log.NewNopLogger())
 		sy := sgossip.VNewSyncer(e.cs, log.NewNopLogger())
 		e.gs = pgossip.VNewClusterState(id, "", nopFD{}, sy)
@@ -155,7 +159,7 @@ func (e *mgrEngine) Step(ws []string, o *Out) string {
 		e.mgr = upstream.NewLoadBalancedManager(e.cs, nil)
 		return "ok " + e.show()
 	case "node":
-		n := &cluster.Node{ID: unhx(ws[1]), Status: cluster.NodeStatus(ws[2]), ProxyAddr: unhx(ws[3]), AdminAddr: unhx(ws[4])}
+		n := &cluster.Node{ID: Unhx(ws[1]), Status: cluster.NodeStatus(ws[2]), ProxyAddr: Unhx(ws[3]), AdminAddr: Unhx(ws[4])}
 		if ws[2] == "unset" {
 			n.Status = ""
 		}
@@ -164,19 +168,19 @@ func (e *mgrEngine) Step(ws []string, o *Out) string {
 			if n.Endpoints == nil {
 				n.Endpoints = map[string]int{}
 			}
-			n.Endpoints[unhx(p[0])] = atoi(p[1])
+			n.Endpoints[Unhx(p[0])] = Atoi(p[1])
 		}
 		e.cs.AddNode(n)
 		return "ok"
 	case "add":
-		uid, ep := atoi(ws[1]), unhx(ws[2])
+		uid, ep := Atoi(ws[1]), Unhx(ws[2])
 		e.mgr.AddConn(e.up(uid, ep))
 		e.ref[ep] = append(e.ref[ep], uid)
 		e.win[ep] = nil
 		e.oracleCounts(o)
 		return "ok " + e.show()
 	case "rm":
-		uid, ep := atoi(ws[1]), unhx(ws[2])
+		uid, ep := Atoi(ws[1]), Unhx(ws[2])
 		e.mgr.RemoveConn(e.up(uid, ep))
 		if xs, ok := removeFirst(e.ref[ep], uid); ok {
 			e.ref[ep] = xs
@@ -188,25 +192,25 @@ func (e *mgrEngine) Step(ws []string, o *Out) string {
 		e.oracleCounts(o)
 		return "ok " + e.show()
 	case "sel":
-		ep, allow := unhx(ws[1]), ws[2] == "1"
+		ep, allow := Unhx(ws[1]), ws[2] == "1"
 		u, ok := e.mgr.Select(ep, allow)
 		o.Count("oracle:C15")
 		switch {
 		case !ok && u == nil:
 			if len(e.ref[ep]) > 0 {
-				o.Fail("C15", "registered-but-none", hx(ep))
+				o.Fail("C15", "registered-but-none", Hx(ep))
 			}
 			return "sel none"
 		case ok && u == nil:
-			o.Fail("C15", "nil-true", hx(ep))
+			o.Fail("C15", "nil-true", Hx(ep))
 			return "sel nil-true"
 		case !ok:
-			o.Fail("C15", "upstream-false", hx(ep))
+			o.Fail("C15", "upstream-false", Hx(ep))
 			return "sel weird"
 		}
 		if fu, isLocal := u.(*fakeUp); isLocal {
 			if fu.ep != ep {
-				o.Fail("C15", "wrong-endpoint", hx(ep)+" got "+hx(fu.ep))
+				o.Fail("C15", "wrong-endpoint", Hx(ep)+" got "+Hx(fu.ep))
 			}
 			found := false
 			for _, id := range e.ref[ep] {
@@ -215,7 +219,7 @@ func (e *mgrEngine) Step(ws []string, o *Out) string {
 				}
 			}
 			if !found {
-				o.Fail("C15", "not-registered", hx(ep)+" uid="+strconv.Itoa(fu.id))
+				o.Fail("C15", "not-registered", Hx(ep)+" uid="+strconv.Itoa(fu.id))
 			}
 			// fairness: window of selections since the last add/rm of this endpoint:
 			// every n consecutive results are a permutation of the n registered (distinct) ids.
@@ -224,7 +228,7 @@ func (e *mgrEngine) Step(ws []string, o *Out) string {
 			if n := len(ids); len(e.win[ep]) >= n && distinct(ids) {
 				last := e.win[ep][len(e.win[ep])-n:]
 				if !samePerm(last, ids) {
-					o.Fail("C15", "unfair-window", hx(ep)+" window="+fmt.Sprint(last)+" registered="+fmt.Sprint(ids))
+					o.Fail("C15", "unfair-window", Hx(ep)+" window="+fmt.Sprint(last)+" registered="+fmt.Sprint(ids))
 				}
 				o.Count("oracle:C15:window")
 			}
@@ -232,37 +236,37 @@ func (e *mgrEngine) Step(ws []string, o *Out) string {
 		}
 		n, isNode := upstream.VNodeOf(u)
 		if !isNode {
-			o.Fail("C15", "unknown-upstream-type", hx(ep))
+			o.Fail("C15", "unknown-upstream-type", Hx(ep))
 			return "sel weird"
 		}
 		if !allow {
-			o.Fail("C15", "remote-when-not-allowed", hx(ep)+" node="+hx(n.ID))
+			o.Fail("C15", "remote-when-not-allowed", Hx(ep)+" node="+Hx(n.ID))
 		}
 		if len(e.ref[ep]) > 0 {
-			o.Fail("C15", "remote-despite-local", hx(ep))
+			o.Fail("C15", "remote-despite-local", Hx(ep))
 		}
 		if u.EndpointID() != ep {
-			o.Fail("C15", "remote-wrong-endpoint", hx(ep))
+			o.Fail("C15", "remote-wrong-endpoint", Hx(ep))
 		}
 		// soundness against the routing table read back through the public API
 		cur, ok2 := e.cs.Node(n.ID)
 		if !ok2 || n.ID == e.cs.LocalID() || cur.Status != cluster.NodeStatusActive || cur.Endpoints[ep] <= 0 {
-			o.Fail("C04", "lookup-unsound", hx(ep)+" node="+hx(n.ID))
+			o.Fail("C04", "lookup-unsound", Hx(ep)+" node="+Hx(n.ID))
 		}
-		return "sel remote " + hx(n.ID)
+		return "sel remote " + Hx(n.ID)
 	case "lb.new":
 		e.lb = upstream.VNewLB()
 		return "ok " + e.showLB()
 	case "lb.add":
-		e.lb.Add(e.lbu(atoi(ws[1])))
+		e.lb.Add(e.lbu(Atoi(ws[1])))
 		return "ok " + e.showLB()
 	case "lb.rm":
-		em := e.lb.Remove(e.lbu(atoi(ws[1])))
+		em := e.lb.Remove(e.lbu(Atoi(ws[1])))
 		ups, idx := upstream.VLBState(e.lb)
 		if len(ups) > 0 && (idx < 0 || idx >= len(ups)) {
 			o.Fail("C15", "cursor-out-of-range", fmt.Sprintf("idx=%d len=%d", idx, len(ups)))
 		}
-		return "empty=" + b01(em) + " " + e.showLB()
+		return "empty=" + B01(em) + " " + e.showLB()
 	case "lb.next":
 		u := e.lb.Next()
 		if u == nil {
@@ -324,19 +328,19 @@ func samePerm(a, b []int) bool {
 func (e *mgrEngine) Gen(r *rand.Rand, n int, tier string, w *bufio.Writer) {
 	for c := 0; c < n; c++ {
 		fmt.Fprintf(w, "case mgr-%d\n", c)
-		fmt.Fprintf(w, "init %s %s %s\n", hx("n0"), hx("10.0.0.1:8000"), hx("10.0.0.1:8002"))
+		fmt.Fprintf(w, "init %s %s %s\n", Hx("n0"), Hx("10.0.0.1:8000"), Hx("10.0.0.1:8002"))
 		neps := 1 + r.Intn(4)
-		eps := append([]string(nil), epAlphabet...)
+		eps := append([]string(nil), EpAlphabet...)
 		r.Shuffle(len(eps), func(i, j int) { eps[i], eps[j] = eps[j], eps[i] })
 		eps = eps[:neps]
 		nups := 1 + r.Intn(5)
 		// remote rows, mutually inconsistent on purpose
 		statuses := []string{"active", "active", "unreachable", "left"}
 		for i := 1; i <= r.Intn(4); i++ {
-			line := fmt.Sprintf("node %s %s %s %s", hx(fmt.Sprintf("n%d", i)), pick(r, statuses), hx(fmt.Sprintf("10.0.0.%d:8000", i+1)), hx(fmt.Sprintf("10.0.0.%d:8002", i+1)))
+			line := fmt.Sprintf("node %s %s %s %s", Hx(fmt.Sprintf("n%d", i)), Pick(r, statuses), Hx(fmt.Sprintf("10.0.0.%d:8000", i+1)), Hx(fmt.Sprintf("10.0.0.%d:8002", i+1)))
 			for _, ep := range eps {
 				if r.Intn(2) == 0 {
-					line += fmt.Sprintf(" %s=%d", hx(ep), r.Intn(4)-1)
+					line += fmt.Sprintf(" %s=%d", Hx(ep), r.Intn(4)-1)
 				}
 			}
 			fmt.Fprintln(w, line)
@@ -346,18 +350,18 @@ func (e *mgrEngine) Gen(r *rand.Rand, n int, tier string, w *bufio.Writer) {
 			nops = 20 + r.Intn(200)
 		}
 		for i := 0; i < nops; i++ {
-			ep := pick(r, eps)
+			ep := Pick(r, eps)
 			uid := 1 + r.Intn(nups)
 			switch x := r.Intn(10); {
 			case x < 3:
-				fmt.Fprintf(w, "add %d %s\n", uid, hx(ep))
+				fmt.Fprintf(w, "add %d %s\n", uid, Hx(ep))
 			case x < 6:
-				fmt.Fprintf(w, "rm %d %s\n", uid, hx(ep))
+				fmt.Fprintf(w, "rm %d %s\n", uid, Hx(ep))
 				if r.Intn(4) == 0 { // late duplicate removal
-					fmt.Fprintf(w, "rm %d %s\n", uid, hx(ep))
+					fmt.Fprintf(w, "rm %d %s\n", uid, Hx(ep))
 				}
 			default:
-				fmt.Fprintf(w, "sel %s %d\n", hx(ep), r.Intn(2))
+				fmt.Fprintf(w, "sel %s %d\n", Hx(ep), r.Intn(2))
 			}
 		}
 		// raw balancer
